@@ -29,6 +29,8 @@ func main() {
 	switch prop {
 	case "c09":
 		err = runC09(opt)
+	case "c17":
+		err = runC17(opt)
 	default:
 		err = fmt.Errorf("unknown property %s", prop)
 	}
